@@ -1,5 +1,5 @@
 (* Exactness of the legacy convert() templates (ConvModel.v) w.r.t. ConvSpec.conv_spec. *)
-From Coq Require Import ZArith Bool List Lia ZifyBool String.
+From Coq Require Import ZArith Znumtheory Bool List Lia ZifyBool String.
 From Verif Require Import Base.Word256 C03.LIR C03.ArithSpec C03.ConvSpec C03.WordArith C03.TypeLemmas
   C03.ArithModel C03.ConvModel C03.LegacyExact.
 Import ListNotations.
@@ -59,7 +59,8 @@ Qed.
 (* _clamp_numeric_convert: passes iff the value is within the output bounds (those that can be violated) *)
 Lemma clamp_numeric_eval e arg alo ahi olo ohi (s : bool) i1 i2 v :
   leval e arg = Val (wrap v) -> alo <= v <= ahi ->
-  (if s then sword v /\ sword olo /\ sword ohi else uword v /\ uword ohi /\ olo <= alo) ->
+  (if s then sword v /\ (alo < olo -> sword olo) /\ (ohi < ahi -> sword ohi)
+   else uword v /\ (ohi < ahi -> uword ohi) /\ olo <= alo) ->
   leval e (m_clamp_numeric arg alo ahi olo ohi s i1 i2)
   = if (olo <=? v) && (v <=? ohi) then Val (wrap v) else Revert.
 Proof.
@@ -68,14 +69,14 @@ Proof.
                = if olo <=? v then Val (wrap v) else Revert).
   { destruct (Z.ltb_spec alo olo).
     - destruct s; [|lia]. destruct Hs as [Sv [So _]].
-      rewrite (clampop_eval _ _ _ _ _ _ Ha), sge_val by assumption.
+      rewrite (clampop_eval _ _ _ _ _ _ Ha), sge_val by (try assumption; apply So; assumption).
       destruct (Z.ltb_spec v olo), (Z.leb_spec olo v); try lia; reflexivity.
     - rewrite Ha. replace (olo <=? v) with true by lia. reflexivity. }
   destruct (Z.ltb_spec ohi ahi).
   - destruct (Z.leb_spec olo v); cbn [andb].
     + rewrite (clampop_eval _ _ _ _ _ _ A1).
-      destruct s; [destruct Hs as [Sv [_ Sh]]; rewrite sle_val by assumption
-                  | destruct Hs as [Sv [Sh _]]; rewrite le_val by assumption];
+      destruct s; [destruct Hs as [Sv [_ Sh]]; rewrite sle_val by (try assumption; apply Sh; assumption)
+                  | destruct Hs as [Sv [Sh _]]; rewrite le_val by (try assumption; apply Sh; assumption)];
         destruct (Z.ltb_spec ohi v), (Z.leb_spec v ohi); try lia; reflexivity.
     + apply clampop_revert. exact A1.
   - rewrite A1. replace (v <=? ohi) with true by lia. rewrite andb_true_r. reflexivity.
@@ -137,4 +138,349 @@ Proof.
       rewrite enc_out_chk. unfold in_rangeb. rewrite ty_lo_u, ty_hi_u by lia. rewrite wrap_small by lia. bsolve.
     + rewrite Hx. rewrite chk_val; [reflexivity|]. unfold in_range. rewrite ty_lo_u, ty_hi_u by lia.
       pose proof (Hb_mono ks kt ltac:(lia)). lia.
+Qed.
+
+Lemma ty_lo_hi_sign T : ty_ok T -> ty_lo T <= 0 <= ty_hi T.
+Proof.
+  destruct T as [k s d]. intros [Hk _]. cbn [nbytes] in Hk. pose proof (Hb_pos k ltac:(lia)).
+  destruct s; [rewrite ty_lo_s, ty_hi_s | rewrite ty_lo_u, ty_hi_u by lia]; lia.
+Qed.
+
+(* ---- decimal <-> int ---- *)
+Lemma dec_bounds : ty_lo decimal_t = - P167 /\ ty_hi decimal_t = P167 - 1.
+Proof. split; reflexivity. Qed.
+
+Theorem fixed_to_int_exact T e x i1 i2 v : ty_ok T -> ndec T = false -> in_range decimal_t v -> leval e x = Val (wrap v) ->
+  leval e (L2 OSdiv (m_clamp_numeric x (ty_lo decimal_t) (ty_hi decimal_t) (ty_lo T * DIVISOR) (ty_hi T * DIVISOR) true i1 i2)
+                    (LInt DIVISOR))
+  = enc_out (if (ty_lo T * DIVISOR <=? v) && (v <=? ty_hi T * DIVISOR) then Val (Z.quot v DIVISOR) else Revert).
+Proof.
+  intros OkT ND Hv Hx. unfold in_range in Hv. destruct dec_bounds as [L H]. rewrite L, H in *.
+  pose proof P167_val. pose proof W_val. pose proof HALF_val. pose proof DIVISOR_val.
+  assert (Sv : sword v) by (unfold sword, MINS, MAXS; lia).
+  cbn [leval].
+  rewrite (clamp_numeric_eval _ _ _ _ _ _ true _ _ v); [| exact Hx | lia |].
+  - destruct ((ty_lo T * DIVISOR <=? v) && (v <=? ty_hi T * DIVISOR)); [|reflexivity].
+    cbn [ev2 enc_out]. unfold enc. f_equal. apply sdiv_val; [exact Sv | unfold sword; wl | lia].
+  - pose proof (ty_lo_hi_sign T OkT). split; [exact Sv|]. split; intros C; unfold sword, MINS, MAXS; nia.
+Qed.
+
+Theorem int_to_fixed_exact S e x i1 i2 v : ty_ok S -> ndec S = false -> in_range S v -> leval e x = Val (wrap v) ->
+  leval e (L2 OMul (m_clamp_numeric x (ty_lo S) (ty_hi S) (Z.quot (ty_lo decimal_t) DIVISOR) (Z.quot (ty_hi decimal_t) DIVISOR)
+                                    (nsigned S) i1 i2) (LInt DIVISOR))
+  = enc_out (chk decimal_t (v * DIVISOR)).
+Proof.
+  destruct S as [k s d]. intros [Hk _] ND Hv Hx. cbn [nbytes nsigned ndec] in *. subst d.
+  pose proof (range_bounds k s false v ltac:(lia) Hv) as Bv.
+  pose proof (in_range_fits k s false v Hk Hv) as Fv.
+  pose proof P167_val. pose proof W_val. pose proof HALF_val. pose proof DIVISOR_val.
+  pose proof (Hb_pos k ltac:(lia)). pose proof (Hb_le_HALF k Hk).
+  change (Z.quot (ty_lo decimal_t) DIVISOR) with (-18707220957835557353007165858768422651595).
+  change (Z.quot (ty_hi decimal_t) DIVISOR) with 18707220957835557353007165858768422651595.
+  cbn [leval].
+  rewrite (clamp_numeric_eval _ _ _ _ _ _ s _ _ v); [| exact Hx | exact Hv |].
+  - rewrite enc_out_chk. unfold in_rangeb. destruct dec_bounds as [L H']. rewrite L, H'.
+    destruct ((-18707220957835557353007165858768422651595 <=? v) && (v <=? 18707220957835557353007165858768422651595)) eqn:E.
+    + cbn [ev2]. rewrite w_mul_wrap. replace ((- P167 <=? v * DIVISOR) && (v * DIVISOR <=? P167 - 1)) with true by lia.
+      reflexivity.
+    + replace ((- P167 <=? v * DIVISOR) && (v * DIVISOR <=? P167 - 1)) with false by lia. reflexivity.
+  - destruct s; cbn [fits256] in Fv.
+    + split; [exact Fv|]. split; intros _; unfold sword; wl.
+    + split; [exact Fv|]. split; [intros _; unfold uword; wl|]. rewrite ty_lo_u. lia.
+Qed.
+
+(* ---- bytesM: left-aligned words and shifts ---- *)
+Lemma W_split s : 0 <= s <= 256 -> W = 2 ^ s * 2 ^ (256 - s).
+Proof. intros H. unfold W. rewrite <- Z.pow_add_r by lia. f_equal. lia. Qed.
+
+Lemma mul_pow_mod v s : 0 <= s <= 256 -> (v * 2 ^ s) mod W = (v mod 2 ^ (256 - s)) * 2 ^ s.
+Proof.
+  intros H. rewrite (W_split s H). rewrite (Z.mul_comm (2 ^ s) (2 ^ (256 - s))).
+  rewrite Z.mul_mod_distr_r; [reflexivity | apply Z.pow_nonzero; lia | apply Z.pow_nonzero; lia].
+Qed.
+
+Lemma bytes_word_range m v : 1 <= m <= 32 -> 0 <= v < 2 ^ (8 * m) -> uword (v * 2 ^ (8 * (32 - m))).
+Proof.
+  intros Hm Hv. unfold uword. rewrite (W_split (8 * (32 - m))) by lia.
+  replace (256 - 8 * (32 - m)) with (8 * m) by lia.
+  pose proof (Z.pow_pos_nonneg 2 (8 * (32 - m)) ltac:(lia) ltac:(lia)). nia.
+Qed.
+
+Lemma shr_bytes m v : 1 <= m <= 32 -> 0 <= v ->
+  w_shr (wrap (8 * (32 - m))) (v * 2 ^ (8 * (32 - m))) = v.
+Proof.
+  intros Hm Hv. pose proof W_val. rewrite wrap_small by lia. unfold w_shr.
+  replace (8 * (32 - m) <? 256) with true by lia. apply Z.div_mul. apply Z.pow_nonzero; lia.
+Qed.
+
+Lemma sar_bytes m v : 1 <= m <= 32 -> 0 <= v < 2 ^ (8 * m) ->
+  w_sar (wrap (8 * (32 - m))) (v * 2 ^ (8 * (32 - m))) = wrap (sbytes m v).
+Proof.
+  intros Hm Hv. pose proof W_val. rewrite wrap_small by lia. unfold w_sar, of_signed.
+  replace (8 * (32 - m) <? 256) with true by lia. fold (wrap (to_signed (v * 2 ^ (8 * (32 - m))) / 2 ^ (8 * (32 - m)))).
+  f_equal. set (s := 8 * (32 - m)) in *.
+  assert (HP : 0 < 2 ^ s) by (apply Z.pow_pos_nonneg; lia).
+  assert (HW : W = 2 ^ s * 2 ^ (8 * m)).
+  { rewrite (W_split s) by lia. f_equal. f_equal. lia. }
+  assert (HH : HALF = 2 ^ s * 2 ^ (8 * m - 1)).
+  { unfold HALF. rewrite <- Z.pow_add_r by lia. f_equal. lia. }
+  assert (HB : 2 ^ (8 * m) = 2 * 2 ^ (8 * m - 1)).
+  { replace (8 * m) with (1 + (8 * m - 1)) at 1 by lia. rewrite Z.pow_add_r by lia. reflexivity. }
+  unfold to_signed, sbytes.
+  destruct (Z.ltb_spec v (2 ^ (8 * m - 1))).
+  - replace (v * 2 ^ s <? HALF) with true by (symmetry; apply Z.ltb_lt; nia).
+    apply Z.div_mul. lia.
+  - replace (v * 2 ^ s <? HALF) with false by (symmetry; apply Z.ltb_ge; nia).
+    replace (v * 2 ^ s - W) with ((v - 2 ^ (8 * m)) * 2 ^ s) by nia.
+    apply Z.div_mul. lia.
+Qed.
+
+Lemma shl_num M v : 1 <= M <= 32 ->
+  w_shl (wrap (256 - 8 * M)) (wrap v) = (v mod 2 ^ (8 * M)) * 2 ^ (8 * (32 - M)).
+Proof.
+  intros HM. pose proof W_val. rewrite (wrap_small (256 - 8 * M)) by lia. unfold w_shl.
+  replace (256 - 8 * M <? 256) with true by lia.
+  rewrite mul_pow_mod by lia. replace (256 - (256 - 8 * M)) with (8 * M) by lia.
+  replace (8 * (32 - M)) with (256 - 8 * M) by lia. f_equal.
+  unfold wrap. symmetry. apply Znumtheory.Zmod_div_mod.
+  - apply Z.pow_pos_nonneg; lia.
+  - lia.
+  - exists (2 ^ (256 - 8 * M)). rewrite (W_split (8 * M)) by lia. apply Z.mul_comm.
+Qed.
+
+Lemma shl_bytes_check m M v : 1 <= M -> M < m <= 32 -> 0 <= v < 2 ^ (8 * m) ->
+  (w_shl (wrap (8 * M)) (v * 2 ^ (8 * (32 - m))) =? 0) = (v mod 2 ^ (8 * (m - M)) =? 0).
+Proof.
+  intros HM Hm Hv. pose proof W_val. rewrite wrap_small by lia. unfold w_shl.
+  replace (8 * M <? 256) with true by lia.
+  rewrite <- Z.mul_assoc, <- Z.pow_add_r by lia.
+  rewrite mul_pow_mod by lia.
+  replace (256 - (8 * (32 - m) + 8 * M)) with (8 * (m - M)) by lia.
+  assert (0 < 2 ^ (8 * (32 - m) + 8 * M)) by (apply Z.pow_pos_nonneg; lia).
+  pose proof (Z.mod_pos_bound v (2 ^ (8 * (m - M))) ltac:(apply Z.pow_pos_nonneg; lia)).
+  destruct (Z.eqb_spec (v mod 2 ^ (8 * (m - M))) 0) as [E|E]; [rewrite E; reflexivity|].
+  apply Z.eqb_neq. nia.
+Qed.
+
+(* ---- facts about source values ---- *)
+Lemma sbytes_range m v : 1 <= m <= 32 -> 0 <= v < 2 ^ (8 * m) -> - Hb m <= sbytes m v <= Hb m - 1.
+Proof.
+  intros Hm Hv. unfold sbytes. rewrite pow8k in * by lia. rewrite Hb_pow by lia.
+  destruct (v <? Hb m) eqn:E; lia.
+Qed.
+
+Lemma nty_eqb_eq a b : nty_eqb a b = true -> a = b.
+Proof.
+  destruct a as [k s d], b as [k' s' d']. unfold nty_eqb. cbn. intros H.
+  apply andb_true_iff in H. destruct H as [H H3]. apply andb_true_iff in H. destruct H as [H1 H2].
+  apply Z.eqb_eq in H1. apply Bool.eqb_prop in H2. apply Bool.eqb_prop in H3. subst. reflexivity.
+Qed.
+
+Lemma dec_is_decimal_t S0 : ty_ok S0 -> ndec S0 = true -> S0 = decimal_t.
+Proof. destruct S0 as [k s d]. intros [_ H] D. cbn in *. subst d. destruct (H eq_refl) as [-> ->]. reflexivity. Qed.
+
+(* the word of a source value is a word *)
+Lemma c_enc_uword T v : cty_ok T -> c_in_range T v -> uword (c_enc T v).
+Proof.
+  intros Ok Hv. destruct T; cbn [c_enc]; try apply wrap_range.
+  cbn in Ok. unfold c_in_range in Hv. cbn [c_lo c_hi] in Hv. apply bytes_word_range; [exact Ok | lia].
+Qed.
+
+(* ---- to_int ---- *)
+Definition to_int_ok (Tin : cty) (T : nty) : Prop :=
+  match Tin with CAddr => nsigned T = false | CFlag _ => T = uint256_t | _ => True end.
+Lemma allowed_to_int_ok Tin T : ndec T = false -> conv_allowed Tin (CNum T) = true -> to_int_ok Tin T.
+Proof.
+  intros ND Al. unfold conv_allowed in Al. apply andb_true_iff in Al. destruct Al as [_ Al]. rewrite ND in Al.
+  destruct Tin; cbn [to_int_ok]; try exact I.
+  - destruct (nsigned T); [discriminate Al | reflexivity].
+  - apply nty_eqb_eq. exact Al.
+Qed.
+
+Theorem to_int_exact Tin T i1 i2 e x v :
+  cty_ok Tin -> ty_ok T -> ndec T = false -> to_int_ok Tin T -> c_in_range Tin v ->
+  leval e x = Val (c_enc Tin v) ->
+  leval e (m_to_int Tin T x i1 i2) = enc_out (conv_spec Tin (CNum T) v).
+Proof.
+  intros OkI OkT ND Al Hv Hx. unfold conv_spec. rewrite ND.
+  pose proof W_val. pose proof HALF_val.
+  destruct Tin as [S0| | |m|n]; cbn [m_to_int c_enc] in *.
+  - (* numeric source *)
+    cbn in OkI. destruct (ndec S0) eqn:DS.
+    + pose proof (dec_is_decimal_t S0 OkI DS). subst S0. apply fixed_to_int_exact; assumption.
+    + apply int_to_int_exact; assumption.
+  - (* bool *)
+    rewrite Hx. unfold c_in_range in Hv. cbn [c_lo c_hi] in Hv. change (c_chk (CNum T) v) with (chk T v).
+    rewrite chk_val; [reflexivity|]. pose proof (ty_lo_hi_sign T OkT).
+    destruct T as [k s d]. destruct OkT as [Hk _]. cbn in Hk. pose proof (Hb_pos k ltac:(lia)).
+    unfold in_range. destruct s; [rewrite ty_lo_s, ty_hi_s | rewrite ty_lo_u, ty_hi_u by lia]; lia.
+  - (* address *)
+    unfold c_in_range in Hv. cbn [c_lo c_hi] in Hv. change (c_chk (CNum T) v) with (chk T v).
+    destruct T as [k s d]. destruct OkT as [Hk _]. cbn in Hk, ND, Al. subst d.
+    cbn in Al. subst s.
+    unfold nbits. cbn [nbytes].
+    assert (P160 : 2 ^ 160 = 1461501637330902918203684832716283019655932542976) by reflexivity.
+    destruct (Z.ltb_spec (8 * k) 160).
+    + rewrite (uclamp_of_eval _ _ _ (wrap v)); [| lia | exact Hx | apply wrap_range].
+      rewrite wrap_small by lia. rewrite pow8k by lia.
+      rewrite enc_out_chk. unfold in_rangeb. rewrite ty_lo_u, ty_hi_u by lia. rewrite wrap_small by lia. bsolve.
+    + rewrite Hx. rewrite chk_val; [reflexivity|]. unfold in_range. rewrite ty_lo_u, ty_hi_u by lia.
+      assert (Hb 20 <= Hb k) by (apply Hb_mono; lia). change (Hb 20) with (2 ^ 159) in *.
+      assert (2 ^ 160 = 2 * 2 ^ 159) by reflexivity. lia.
+  - (* bytesM *)
+    cbn in OkI. unfold c_in_range in Hv. cbn [c_lo c_hi] in Hv.
+    change (c_chk (CNum T) (if nsigned T then sbytes m v else v)) with (chk T (if nsigned T then sbytes m v else v)).
+    set (r := if nsigned T then sbytes m v else v).
+    pose proof (sbytes_range m v OkI ltac:(lia)) as SR. pose proof (Hb_pos m ltac:(lia)). pose proof (Hb_le_HALF m OkI).
+    assert (HB : 2 ^ (8 * m) = 2 * Hb m) by (apply pow8k; lia).
+    assert (Hn : leval e (m_bytes_to_num m (nsigned T) x) = Val (wrap r)).
+    { unfold m_bytes_to_num, r. cbn [leval]. rewrite Hx. cbn [leval]. destruct (nsigned T); cbn [ev2]; f_equal.
+      - apply sar_bytes; [exact OkI | lia].
+      - rewrite shr_bytes by lia. symmetry. apply wrap_small. lia. }
+    destruct T as [k s d]. destruct OkT as [Hk _]. cbn in Hk, ND. subst d. unfold nbits. cbn [nbytes nsigned] in *.
+    pose proof (Hb_pos k ltac:(lia)).
+    destruct (Z.ltb_spec (8 * k) (8 * m)).
+    + unfold m_iclamp. apply (cache_eval _ _ _ _ _ _ _ Hn). intros e' er Her _.
+      destruct s.
+      * replace (8 * k / 8) with k by (rewrite Z.mul_comm, Z.div_mul; lia).
+        apply clamp_of_exact; [lia | exact Her |]. cbn. unfold r, sword, MINS, MAXS. lia.
+      * rewrite (uclamp_of_eval _ _ _ (wrap r)); [| lia | exact Her | apply wrap_range].
+        unfold r. rewrite wrap_small by lia. rewrite pow8k by lia.
+        rewrite enc_out_chk. unfold in_rangeb. rewrite ty_lo_u, ty_hi_u by lia. rewrite wrap_small by lia. bsolve.
+    + rewrite Hn. rewrite chk_val; [reflexivity|]. unfold in_range, r.
+      pose proof (Hb_mono m k ltac:(lia)).
+      destruct s; [rewrite ty_lo_s, ty_hi_s | rewrite ty_lo_u, ty_hi_u by lia]; lia.
+  - (* flag: only to uint256 *)
+    cbn in OkI. unfold c_in_range in Hv. cbn [c_lo c_hi] in Hv.
+    cbn in Al. subst T.
+    change (c_chk (CNum uint256_t) v) with (chk uint256_t v).
+    assert (2 ^ n <= W) by (apply pow2_le_W; lia).
+    apply (int_to_int_exact uint256_t uint256_t); try assumption.
+    unfold in_range. change (ty_lo uint256_t) with 0. change (ty_hi uint256_t) with (W - 1). lia.
+Qed.
+
+(* ---- to_decimal ---- *)
+Theorem to_decimal_exact Tin T i1 i2 e x v :
+  cty_ok Tin -> ty_ok T -> ndec T = true -> conv_allowed Tin (CNum T) = true -> c_in_range Tin v ->
+  leval e x = Val (c_enc Tin v) ->
+  leval e (m_to_decimal Tin T x i1 i2) = enc_out (conv_spec Tin (CNum T) v).
+Proof.
+  intros OkI OkT DT Al Hv Hx. pose proof (dec_is_decimal_t T OkT DT). subst T.
+  unfold conv_spec. cbn [ndec decimal_t].
+  pose proof W_val. pose proof HALF_val. pose proof DIVISOR_val. pose proof P167_val.
+  destruct Tin as [S0| | |m|n]; cbn [m_to_decimal c_enc] in *;
+    try (unfold conv_allowed in Al; cbn in Al; discriminate Al).
+  - (* int -> decimal *)
+    cbn in OkI. unfold conv_allowed in Al. cbn in Al.
+    assert (NS : ndec S0 = false).
+    { destruct (ndec S0); [|reflexivity]. rewrite andb_false_r in Al. discriminate Al. }
+    change (c_chk (CNum decimal_t) (v * DIVISOR)) with (chk decimal_t (v * DIVISOR)).
+    apply int_to_fixed_exact; assumption.
+  - (* bool -> decimal *)
+    unfold c_in_range in Hv. cbn [c_lo c_hi] in Hv. cbn [leval]. rewrite Hx. cbn [leval ev2 enc_out].
+    rewrite w_mul_wrap. reflexivity.
+  - (* bytesM -> decimal: the bytes are the scaled representation *)
+    cbn in OkI. unfold c_in_range in Hv. cbn [c_lo c_hi] in Hv.
+    change (c_chk (CNum decimal_t) (sbytes m v)) with (chk decimal_t (sbytes m v)).
+    pose proof (sbytes_range m v OkI ltac:(lia)) as SR. pose proof (Hb_pos m ltac:(lia)). pose proof (Hb_le_HALF m OkI).
+    assert (Hn : leval e (m_bytes_to_num m true x) = Val (wrap (sbytes m v))).
+    { unfold m_bytes_to_num. cbn [leval]. rewrite Hx. cbn [leval ev2]. f_equal. apply sar_bytes; [exact OkI | lia]. }
+    destruct (Z.ltb_spec 168 (8 * m)).
+    + unfold m_iclamp. apply (cache_eval _ _ _ _ _ _ _ Hn). intros e' er Her _.
+      change (168 / 8) with 21.
+      apply (clamp_of_exact _ _ 21 true true); [lia | exact Her |]. cbn. unfold sword, MINS, MAXS. lia.
+    + rewrite Hn. rewrite chk_val; [reflexivity|]. unfold in_range. destruct dec_bounds as [-> ->].
+      pose proof (Hb_mono m 21 ltac:(lia)). rewrite Hb_21 in *. lia.
+Qed.
+
+(* ---- to_bytesM ---- *)
+Theorem to_bytes_exact Tin M e x v :
+  cty_ok Tin -> 1 <= M <= 32 -> conv_allowed Tin (CBytes M) = true -> c_in_range Tin v ->
+  leval e x = Val (c_enc Tin v) ->
+  leval e (m_to_bytes Tin M x) = c_enc_out (CBytes M) (conv_spec Tin (CBytes M) v).
+Proof.
+  intros OkI HM Al Hv Hx. unfold conv_spec. pose proof W_val.
+  assert (NUM : forall w, c_enc Tin v = wrap w -> leval e (L2 OShl (LInt (256 - 8 * M)) x)
+                           = c_enc_out (CBytes M) (Val (w mod 2 ^ (8 * M)))).
+  { intros w E. cbn [leval]. rewrite Hx, E. cbn [leval ev2 c_enc_out c_enc]. f_equal. apply shl_num. exact HM. }
+  destruct Tin as [S0| | |m|n]; cbn [m_to_bytes].
+  - apply (NUM v). reflexivity.
+  - apply (NUM v). reflexivity.
+  - apply (NUM v). reflexivity.
+  - (* bytesM' -> bytesM *)
+    cbn in OkI. unfold c_in_range in Hv. cbn [c_lo c_hi] in Hv. cbn [c_enc] in Hx.
+    destruct (Z.ltb_spec M m) as [L|L].
+    + replace (m <=? M) with false by lia.
+      cbn [leval]. rewrite !Hx. cbn [leval ev1 ev2]. unfold w_iszero.
+      rewrite shl_bytes_check by lia. rewrite b2z_eq0.
+      destruct (Z.eqb_spec (v mod 2 ^ (8 * (m - M))) 0) as [E|E]; cbn [negb]; [|reflexivity].
+      cbn [c_enc_out c_enc]. f_equal.
+      assert (P : 0 < 2 ^ (8 * (m - M))) by (apply Z.pow_pos_nonneg; lia).
+      replace (8 * (32 - M)) with (8 * (m - M) + 8 * (32 - m)) by lia. rewrite Z.pow_add_r by lia.
+      pose proof (Z.div_mod v (2 ^ (8 * (m - M))) ltac:(lia)). nia.
+    + replace (m <=? M) with true by lia. rewrite Hx. cbn [c_enc_out c_enc]. f_equal.
+      replace (8 * (32 - m)) with (8 * (M - m) + 8 * (32 - M)) by lia. rewrite Z.pow_add_r by lia. ring.
+  - (* flag -> bytes32 *)
+    cbn in OkI. unfold c_in_range in Hv. cbn [c_lo c_hi] in Hv. cbn [c_enc] in Hx.
+    unfold conv_allowed in Al. cbn in Al. assert (M = 32) by lia. subst M.
+    assert (2 ^ n <= W) by (apply pow2_le_W; lia).
+    rewrite Hx. cbn [c_enc_out c_enc]. f_equal. change (8 * (32 - 32)) with 0. change (8 * 32) with 256.
+    rewrite Z.pow_0_r, Z.mul_1_r. fold W. rewrite wrap_small by lia. symmetry. apply Z.mod_small. lia.
+Qed.
+
+(* ---- to_bool ---- *)
+Lemma c_enc_zero T v : cty_ok T -> c_in_range T v -> (c_enc T v =? 0) = (v =? 0).
+Proof.
+  intros Ok Hv. pose proof W_val. pose proof HALF_val. unfold c_in_range in Hv.
+  destruct T as [S0| | |m|n]; cbn [c_enc c_lo c_hi] in *.
+  - cbn in Ok. destruct S0 as [k s d]. destruct Ok as [Hk _]. cbn in Hk.
+    pose proof (in_range_fits k s d v Hk Hv) as F. apply wrap_eqb0.
+    destruct s; cbn in F; unfold sword, uword, MINS, MAXS in F; lia.
+  - apply wrap_eqb0. lia.
+  - assert (2 ^ 160 <= W) by (apply pow2_le_W; lia). apply wrap_eqb0. lia.
+  - cbn in Ok. assert (0 < 2 ^ (8 * (32 - m))) by (apply Z.pow_pos_nonneg; lia).
+    destruct (Z.eqb_spec v 0) as [->|N]; [reflexivity|]. apply Z.eqb_neq. nia.
+  - cbn in Ok. assert (2 ^ n <= W) by (apply pow2_le_W; lia). apply wrap_eqb0. lia.
+Qed.
+
+(* ---- all of convert() on word types ---- *)
+Theorem convert_exact Tin Tout i1 i2 v :
+  cty_ok Tin -> cty_ok Tout -> conv_allowed Tin Tout = true -> c_in_range Tin v ->
+  leval [("x"%string, c_enc Tin v)] (m_convert Tin Tout i1 i2) = c_enc_out Tout (conv_spec Tin Tout v).
+Proof.
+  intros OkI OkO Al Hv.
+  assert (Hx : leval [("x"%string, c_enc Tin v)] vx = Val (c_enc Tin v)) by reflexivity.
+  pose proof W_val.
+  destruct Tout as [T| | |M|n]; cbn [m_convert].
+  - cbn in OkO. destruct (ndec T) eqn:D.
+    + change (c_enc_out (CNum T)) with enc_out. apply to_decimal_exact; assumption.
+    + change (c_enc_out (CNum T)) with enc_out. apply to_int_exact; try assumption.
+      apply allowed_to_int_ok; assumption.
+  - (* bool *)
+    cbn [leval]. rewrite Hx. cbn [leval ev1 conv_spec c_enc_out c_enc]. f_equal.
+    unfold w_iszero at 2. rewrite w_iszero_b2z. rewrite (c_enc_zero Tin v OkI Hv).
+    destruct (v =? 0); reflexivity.
+  - (* address: as uint160 *)
+    assert (OkU : ty_ok uint160_t) by (split; cbn; [lia | intros C; discriminate C]).
+    assert (Al' : to_int_ok Tin uint160_t).
+    { unfold conv_allowed in Al. destruct Tin as [S0| | |m|n]; cbn in *; try exact I;
+        rewrite ?andb_false_r in Al; discriminate Al. }
+    rewrite (to_int_exact Tin uint160_t i1 i2 _ _ v OkI OkU eq_refl Al' Hv Hx).
+    unfold conv_spec. cbn [ndec uint160_t].
+    destruct Tin as [S0| | |m|n]; try (unfold conv_allowed in Al; cbn in Al; rewrite ?andb_false_r in Al; discriminate Al).
+    + unfold conv_allowed in Al. cbn in Al. destruct (ndec S0); cbn in Al;
+        [rewrite ?andb_false_r in Al; discriminate Al | reflexivity].
+    + cbn [nsigned uint160_t]. reflexivity.
+  - (* bytesM *)
+    cbn in OkO. apply to_bytes_exact; assumption.
+  - (* flag *)
+    cbn in OkO. unfold conv_allowed in Al. apply andb_true_iff in Al. destruct Al as [_ Al].
+    destruct Tin as [S0| | |m|n']; try discriminate Al. apply nty_eqb_eq in Al. subst S0.
+    unfold c_in_range in Hv. cbn [c_lo c_hi] in Hv. change (ty_lo uint256_t) with 0 in Hv. change (ty_hi uint256_t) with (W - 1) in Hv.
+    cbn [c_enc] in *. cbn [conv_spec]. unfold c_chk, c_in_rangeb. cbn [c_lo c_hi].
+    assert (2 ^ n <= W) by (apply pow2_le_W; lia).
+    destruct (Z.ltb_spec n 256).
+    + rewrite (uclamp_of_eval _ _ _ (wrap v)); [| lia | exact Hx | apply wrap_range].
+      rewrite wrap_small by lia. bsolve; cbn [c_enc_out c_enc]; rewrite ?wrap_small by lia; reflexivity.
+    + assert (n = 256) by lia. subst n. rewrite Hx. fold W. bsolve.
 Qed.
